@@ -357,6 +357,16 @@ class FakeSnowflakeCursor:
                     self._conn.schema = None
                     self._conn.schema_set = False
 
+        if (
+            cmd == "CREATE TABLE"
+            and not transformed.args.get("exists")
+            and (created := transformed.find(exp.Table))
+            and (catalog := created.catalog or self._conn.database)
+            and (schema := created.db or self._conn.schema)
+        ):
+            # a new table doesn't inherit the comment and text lengths of an earlier table with the same name
+            self._duck_conn.execute(info_schema.delete_table_metadata_sql(catalog, schema, created.name))
+
         if table_comment := cast(tuple[exp.Table, str], transformed.args.get("table_comment")):
             # record table comment
             table, comment = table_comment
